@@ -39,7 +39,7 @@ theorem step_str {cmp : Op → A → A → Bool} {lit : List Char → Option A} 
       refine ⟨{ s with level := s.level + 1, template := .base (id ++ '.' :: key),
                        imap := s.imap ++ [.item (vs.idxOf key) (s.level + 1)] }, ?_, ?_, rfl⟩
       · simp [getitem, htm, indexOf?_of_mem hk]
-      · refine ⟨hrel.filt, ?_, ?_, hrel.sl⟩
+      · refine ⟨hrel.root, hrel.filt, ?_, ?_, hrel.sl⟩
         · intro r hr
           obtain ⟨cells, hc, hm⟩ := rel_table_maps hrel hl r hr
           obtain ⟨v, hv1, _⟩ := cellOf_some all r hr (hsub key hk)
@@ -85,7 +85,7 @@ theorem step_list {cmp : Op → A → A → Bool} {lit : List Char → Option A}
       refine ⟨{ s with template := .seq { id := id, all := all, visible := keys },
                        imap := s.imap ++ [.proj (keys.map vs.idxOf) (s.level + 1)] }, ?_, ?_, rfl⟩
       · simp [getitem, htm, hcols]
-      · refine ⟨hrel.filt, ?_, ?_, hrel.sl⟩
+      · refine ⟨hrel.root, hrel.filt, ?_, ?_, hrel.sl⟩
         · intro r hr
           obtain ⟨cells, hc, hm⟩ := rel_table_maps hrel hl r hr
           obtain ⟨out, h1, h2⟩ := proj_by_name all vs r cells hc keys _ hcols
@@ -102,12 +102,12 @@ theorem step_list {cmp : Op → A → A → Bool} {lit : List Char → Option A}
 theorem step_slice {cmp : Op → A → A → Bool} {id : Name} {all : List Name}
     {s : Stream A} {st : Ref A} (sl : PSlice) (hrel : Rel cmp id all s st) :
     Rel cmp id all { s with islice := s.islice ++ [sl] } { st with slices := st.slices ++ [sl] } :=
-  ⟨hrel.filt, hrel.maps, hrel.tmpl, by show s.islice ++ [sl] = st.slices ++ [sl]; rw [hrel.sl]⟩
+  ⟨hrel.root, hrel.filt, hrel.maps, hrel.tmpl, by show s.islice ++ [sl] = st.slices ++ [sl]; rw [hrel.sl]⟩
 
 /-- the filter built for a clause the reference resolves evaluates the resolved clause -/
 theorem buildFilter_resolved {lit : List Char → Option A} {id : Name} {all vs : List Name} {c : Cond} {rc : RCond A}
     (hres : resolve lit id all c = some rc) :
-    ∃ f : Filt A, buildFilter lit c (.seq ⟨id, all, vs⟩) = .ok (f, .ident) ∧
+    ∃ f : Filt A, buildFilter lit c ⟨id, all, vs⟩ = .ok (f, .ident) ∧
       ∀ (cmp : Op → A → A → Bool) (r : List A), r.length = all.length →
         evalFilt cmp f r = .ok (refCond cmp all r rc) := by
   unfold resolve at hres
@@ -160,35 +160,27 @@ theorem step_cond {cmp : Op → A → A → Bool} {lit : List Char → Option A}
     (hrel : Rel cmp id all s st) (hstep : refStep lit id all st (.cond c) = some st') :
     ∃ s', getitem lit s (.cond c) = .ok s' ∧ Rel cmp id all s' st' ∧ s'.src = s.src := by
   simp only [refStep] at hstep
-  cases hl : st.layout with
-  | column k => simp [hl] at hstep
-  | table vs =>
-    simp only [hl] at hstep
-    cases hres : resolve lit id all c with
-    | none => simp [hres] at hstep
-    | some rc =>
-      simp [hres] at hstep
-      subst hstep
-      have ht := hrel.tmpl
-      simp only [hl] at ht
-      obtain ⟨htm, hlev, hsub⟩ := ht
-      obtain ⟨f, hb, hf⟩ := buildFilter_resolved (vs := vs) hres
-      refine ⟨{ s with ifilter := s.ifilter ++ [f], imap := s.imap ++ [.ident] }, ?_, ?_, rfl⟩
-      · simp only [getitem, htm, hb]; rfl
-      · refine ⟨?_, ?_, ?_, hrel.sl⟩
-        · intro r hr
-          have := evalFilts_append cmp s.ifilter f r _ _ (hrel.filt r hr) (hf cmp r hr)
-          show evalFilts cmp (s.ifilter ++ [f]) r = .ok ((st.conds ++ [rc]).all (refCond cmp all r))
-          rw [this, List.all_append]
-          simp
-        · intro r hr
-          obtain ⟨it, h1, h2⟩ := hrel.maps r hr
-          rw [hl] at h1
-          refine ⟨it, h1, ?_⟩
-          show evalMaps (s.imap ++ [.ident]) (.row r) = _
-          rw [evalMaps_append, h2]
-          rfl
-        · exact ⟨htm, hlev, hsub⟩
+  cases hres : resolve lit id all c with
+  | none => simp [hres] at hstep
+  | some rc =>
+    simp [hres] at hstep
+    subst hstep
+    obtain ⟨f, hb, hf⟩ := buildFilter_resolved (vs := s.root.visible) hres
+    have hroot : s.root = ⟨id, all, s.root.visible⟩ := by
+      obtain ⟨h1, h2⟩ := hrel.root
+      cases hr : s.root with
+      | mk i a v => rw [hr] at h1 h2; simp only at h1 h2; subst h1 h2; rfl
+    refine ⟨{ s with ifilter := s.ifilter ++ [f], imap := .ident :: s.imap }, ?_, ?_, rfl⟩
+    · simp only [getitem]; rw [hroot, hb]; rfl
+    · refine ⟨hrel.root, ?_, ?_, hrel.tmpl, hrel.sl⟩
+      · intro r hr
+        have := evalFilts_append cmp s.ifilter f r _ _ (hrel.filt r hr) (hf cmp r hr)
+        show evalFilts cmp (s.ifilter ++ [f]) r = .ok ((st.conds ++ [rc]).all (refCond cmp all r))
+        rw [this, List.all_append]
+        simp
+      · intro r hr
+        -- the clause's map is the identity on the source row, in front of the recorded maps
+        exact hrel.maps r hr
 
 theorem step_sim {cmp : Op → A → A → Bool} {lit : List Char → Option A} {id : Name} {all : List Name}
     {s : Stream A} {st st' : Ref A} (k : Key)
@@ -258,9 +250,9 @@ theorem rel_init (cmp : Op → A → A → Bool) (id : Name) (all : List Name) (
     simp [refItem, this]
   cases csv with
   | true =>
-    refine ⟨fun r _ => rfl, fun r hr => ⟨.row r, hitem r hr, rfl⟩, ⟨rfl, rfl, fun k hk => hk⟩, rfl⟩
+    refine ⟨⟨rfl, rfl⟩, fun r _ => rfl, fun r hr => ⟨.row r, hitem r hr, rfl⟩, ⟨rfl, rfl, fun k hk => hk⟩, rfl⟩
   | false =>
-    refine ⟨fun r _ => rfl, fun r hr => ⟨.row r, hitem r hr, ?_⟩, ⟨rfl, rfl, fun k hk => hk⟩, rfl⟩
+    refine ⟨⟨rfl, rfl⟩, fun r _ => rfl, fun r hr => ⟨.row r, hitem r hr, ?_⟩, ⟨rfl, rfl, fun k hk => hk⟩, rfl⟩
     show evalMaps [.fixNested all.length] (.row r) = _
     simp [evalMaps, evalMap, ← hr]
     rfl
